@@ -42,11 +42,11 @@ Value& TRIMExpression::value(Context & ctx) const
     if (val.lvalue())
       return ctx.allocate(Value(Value::type_literal));
     val.swap(Value(Value::type_literal));
-    return val;
+    return handback(ctx, val);
   case Type::LITERAL:
   {
     if (val.isNull())
-      return val;
+      return handback(ctx, val);
     if (val.lvalue())
     {
       int64_t a, b, c;
@@ -75,7 +75,7 @@ Value& TRIMExpression::value(Context & ctx) const
         while (a < c && rv->at(a) == ' ') ++a;
         rv->assign(rv->substr(a, b - a + 1));
       }
-      return val;
+      return handback(ctx, val);
     }
   }
   default:
